@@ -25,6 +25,40 @@ CHECKS = {
         "Only accesses through the typed memoryviews (bc build) and heap accesses of the module (ASan) are observed; NumPy internals are trusted.",
         "2.1, 7 (C09)",
     ),
+    "C10": (
+        "exploration", "enum",
+        "bounded-exhaustive enumeration of entry dicts over a word-size-boundary alphabet, real save/load on tmpfs, identity oracle",
+        "Exhaustive over arity 1..4 x 0..2(3) entries x coordinate alphabet {0,255,256,65535,65536,2^32-1,2^32,2^63-1} on every axis position x "
+        "every common from the same alphabet x every assignment of five row-id shapes (incl. empty, 2^32-1): the coupling of coordinate width, "
+        "common width, arity and empties is enumerated completely, which is where a mis-sized field would corrupt later fields.",
+        "Row-id arrays limited to five shapes; files on tmpfs; equality through both the library's == and an element-wise comparison.",
+        "7 (C10)",
+    ),
+    "C11": (
+        "exploration", "enum",
+        "bounded-exhaustive enumeration vs. an independent encoder/decoder written from the format docstring (both directions, all admissible word sizes)",
+        "For every C10 input the saved bytes must equal an independent struct.pack encoder's bytes, an independent decoder must recover the input, "
+        "and the library loader must recover it from independently encoded files in every admissible index/row-id word size; the size word is "
+        "checked for row-id totals crossing 2^30 and 2^32 with sparse stand-in arrays. Symmetric writer/reader changes cannot hide.",
+        "The IndxIO class docstring is the specification; >=2^30 totals exercise size arithmetic only.",
+        "7 (C11)",
+    ),
+    "C12": (
+        "fault_enumeration", "enum",
+        "exhaustive crash-point enumeration: every strict prefix of every file of the C10 family is loaded and must raise",
+        "Every file of the bounded family is truncated at every byte position 0..len-1 (30M crash points in the quick tier) and IndxIO.load must "
+        "raise for each; a load that returns is reported with (input, cut).",
+        "A crash leaves a prefix (no block reordering/holes), as the statement says.",
+        "7 (C12)",
+    ),
+    "C19": (
+        "exploration", "enum",
+        "exhaustive enumeration of every cell/edge/corner of the partition of the (max,min) plane induced by the AST constants, vs numpy.iinfo oracle",
+        "fit_dtype is AST-checked to be a pure threshold ladder, so it is constant on each cell of the partition induced by its constants; the "
+        "grid contains every constant +-1, every +-2^k(+-1) up to 2^64 and an interior point per gap, so every cell is decided.",
+        "If the AST check fails the evidence downgrades the claim to 'all grid points'.",
+        "7 (C19)",
+    ),
 }
 
 NOT_YET = "check not built yet (work in progress in this session; see DESIGN.md section 11 for order)"
